@@ -12,10 +12,12 @@ Ltac Zify.zify_post_hook ::= Z.div_mod_to_equations.
 
 (* widths `store` accepts *)
 Definition okw (v : const) : bool := (cbits v mod 8 =? 0) && negb (cbits v =? 0).
+(* stores `store` accepts: a good width and a range that ends at 2^64 at the latest *)
+Definition oks (a : Z) (v : const) : bool := okw v && (a + vk v <=? 2^64).
 (* the log of accepted stores, newest first *)
 Definition log_step (log : list sstore) (o : mop) : list sstore :=
   match o with
-  | MStore a v => if okw v then mkss a v :: log else log
+  | MStore a v => if oks a v then mkss a v :: log else log
   | MSetPerm _ _ _ => log
   end.
 Definition slog (ops : list mop) (log0 : list sstore) : list sstore := fold_left log_step ops log0.
@@ -38,18 +40,17 @@ Lemma step_denotes e b log (m : cmem) o m' :
 Proof.
   intros (G & Ee & Eb & HA) Hok E. pose proof G as [HM Hbk].
   destruct o as [a v|a len p]; cbn [apply_op bind log_step] in *.
-  - destruct Hok as (Ha & Hr & H63). destruct (okw v) eqn:W.
+  - destruct Hok as (Ha & Hr & H63). unfold oks. destruct (okw v) eqn:W; cbn [andb].
     + pose proof (wfv_of_ok v W Hr H63) as Hv.
-      destruct (Z_lt_le_dec (a + vk v) (2^64)) as [Hlt|Hge].
-      * destruct (abs_store_l m a v HM Hbk Hv Ha Hlt) as (m1 & E1 & HM1 & (F1 & F2 & F3) & A1).
+      destruct (Z.leb_spec (a + vk v) (2^64)) as [Hle|Hgt].
+      * destruct (abs_store_l m a v HM Hbk Hv Ha Hle) as (m1 & E1 & HM1 & (F1 & F2 & F3) & A1).
         rewrite E1 in E. injection E as <-.
         split; [split|]. { exact HM1. } { rewrite F1. exact Hbk. }
         split; [congruence|]. split; [congruence|].
         intros x. rewrite A1. unfold store_spec, write. cbn [byte_at covers ss_a ss_c]. rewrite Ee, HA. reflexivity.
-      * exfalso. unfold okw in W. apply andb_true_iff in W as [W8 W0]. apply negb_true_iff in W0.
-        unfold Paged.store in E. cbn [v_bits COps] in E. rewrite W8, W0 in E. cbn [negb orb] in E.
-        unfold uadd in E. fold (vk v) in E. unfold USIZE in E.
-        destruct (Z.ltb_spec (a + vk v) (2^64)); [lia|]. cbn [bind] in E. discriminate.
+      * unfold okw in W. apply andb_true_iff in W as [W8 W0]. apply negb_true_iff in W0.
+        apply Z.eqb_eq in W8. apply Z.eqb_neq in W0.
+        rewrite (store_wrap_err m a v W8 W0 Hgt) in E. injection E as <-. exact (conj G (conj Ee (conj Eb HA))).
     + assert (Hbad: cbits v mod 8 <> 0 \/ cbits v = 0).
       { unfold okw in W. apply andb_false_iff in W as [W|W]; [left; apply Z.eqb_neq, W|right].
         apply negb_false_iff, Z.eqb_eq in W. exact W. }
@@ -151,7 +152,11 @@ Proof.
   exact (proj2 (H ops [] (mnew e b) m D0 F E)).
 Qed.
 
-(* the open finding, as a witness: a one-byte store at the last address panics (overflow-checked
-   `address + bits/8`), although no byte of it wraps *)
-Example store_top_panics : Paged.store COps (mnew LE None) (2^64 - 1) (mkc 8 1) = Panic.
+(* the repaired behaviour at the top of the address space, as witnesses: a store that ends exactly
+   at 2^64 succeeds and is read back; one byte more is an error, not a panic *)
+Example store_at_top_ok :
+  (m <- Paged.store COps (mnew LE None) (2^64 - 4) (mkc 32 287454020) ;; load COps m (2^64 - 2) 16)
+  = Ok (Some (mkc 16 4386)).
+Proof. vm_compute. reflexivity. Qed.
+Example store_past_top_err : Paged.store COps (mnew LE None) (2^64 - 3) (mkc 32 1) = Err ECustom.
 Proof. vm_compute. reflexivity. Qed.
